@@ -184,3 +184,36 @@ Section SeqInv.
     - destruct (Nat.eqb (counter s) 0); [discriminate|]. intros H; injection H as <-. exact Ho.
   Qed.
 End SeqInv.
+
+(* ---------- the encoding readers are the validity-only reader followed by encoding ---------- *)
+Lemma valid_lt c : valid c = true -> c < 256.
+Proof.
+  intros H. destruct (N.ltb_spec c 256) as [|Hge]; [assumption|exfalso].
+  unfold valid, denote, upper in H.
+  replace ((97 <=? c) && (c <=? 122)) with false in H
+    by (symmetry; apply andb_false_iff; right; apply N.leb_gt; lia).
+  destruct c as [|p]; [lia|].
+  do 8 (destruct p as [p|p|]; try (exfalso; lia)); cbn in H; discriminate.
+Qed.
+
+Lemma conv_enc_raw h c : c < 256 -> conv_enc h c = conv' conv_raw (enc h) c.
+Proof.
+  intros Hc. unfold conv_enc, conv', conv_raw. pose proof (enc_valid_iff h c Hc) as [H1 H2].
+  destruct (valid c) eqn:V; cbn [option_map].
+  - destruct (N.eqb_spec (enc h c) 0) as [E|E]; [exfalso; apply (H2 eq_refl); exact E|reflexivity].
+  - destruct (N.eqb_spec (enc h c) 0) as [E|E]; [reflexivity|]. specialize (H1 E). discriminate.
+Qed.
+
+Lemma read_encoded_raw h file : Forall (fun c => c < 256) file ->
+  read_encoded h file = map_res (map (map_rcd (enc h))) (read conv_raw true file).
+Proof.
+  intros Hf. unfold read_encoded. rewrite <- read_map. apply read_ext.
+  intros c Hc. apply conv_enc_raw. rewrite Forall_forall in Hf. apply Hf. exact Hc.
+Qed.
+
+Lemma conv_raw_valid c e : conv_raw c = Some e -> e < 256 /\ valid e = true.
+Proof.
+  unfold conv_raw. destruct (valid c) eqn:V; [|discriminate]. intros H; injection H as <-.
+  split; [apply valid_lt|]; assumption.
+Qed.
+
